@@ -64,6 +64,7 @@ import GM.Proof.LineRec
 import GM.Proof.QuoteSimTop
 import GM.Proof.QuoteSimHypB
 import GM.Proof.QuoteSimListClose
+import GM.Proof.QuoteSimLists
 import GM.Props.Blocks
 
 namespace GM.Props.C08
@@ -217,7 +218,8 @@ theorem quote_step_continue (src : Bytes) :
     (∀ k ls p node sA sB, SR src k ls p sA sB → FenceOK sA → (∃ c ∈ (viewA src ls p).getD [], c ≠ 32) →
       S2 (fun a b sA' sB' => b = a ∧ ∃ p', p ≤ p' ∧ SR src k ls p' sA' sB')
         (bpContinue .fenced node sA) (bpContinue .fenced (node + 1) sB)) ∧
-    (∀ k ls p node sA sB, SR src k ls p sA sB → p < src.length → ListItemContPre src ls p node sA →
+    (∀ k ls p node sA sB, SR src k ls p sA sB → p < src.length →
+      (isBlank ((viewA src ls p).getD []) = false → ListItemContPre src ls p node sA) →
       S2 (fun a b sA' sB' => b = a ∧ ∃ p', p ≤ p' ∧ SR src k ls p' sA' sB')
         (bpContinue .listItem node sA) (bpContinue .listItem (node + 1) sB)) := by
   refine ⟨fun bp h1 h2 h3 h4 => ?_, fun bp hbp => ?_, fencedContinue_sim' src, listItemContinue_sim' src⟩
@@ -275,9 +277,10 @@ theorem quote_step_close (src : Bytes) :
     including the RequireParagraph path, closing a detached last block and the contract monitor, whose measure
     differs by a constant of the line — give the same result and end in related states. -/
 theorem quote_driver_open_blocks {src : Bytes} {al : BP → Bool} (ps : PS src al) (fr : Frames al) (ot : OT src) (ns : NS src)
-    (tr : TrigOK src al) (bA bB : Bool) (q : Nat) {k ls p : Nat} {sA sB : St} (h : DRL src al k ls p sA sB) :
+    (tr : TrigOK src al) (bA bB : Bool) (hb : FL src → bB = bA) (q : Nat) {k ls p : Nat} {sA sB : St}
+    (h : DRL src al k ls p sA sB) :
     S2 (fun a b sA' sB' => b = a ∧ ∃ p', DR src al k ls p' sA' sB') (openBlocks q bA sA) (openBlocks (q + 1) bB sB) :=
-  S2.mono (openBlocks_sim ps fr ot ns tr bA bB q h) (fun _ _ _ _ hh => ⟨hh.1, hh.2.1⟩)
+  S2.mono (openBlocks_sim ps fr ot ns tr bA bB hb q h) (fun _ _ _ _ hh => ⟨hh.1, hh.2.1⟩)
 
 /-- **The driver, one line.** The loop of parseBlocks over the opened blocks (parser.go:1081-1123) — A at levels
     `i, i+1, …`, B one level deeper, B's `openedBlocks` being A's with the Blockquote in front — ends both in
@@ -285,10 +288,11 @@ theorem quote_driver_open_blocks {src : Bytes} {al : BP → Bool} (ps : PS src a
 theorem quote_driver_line {src : Bytes} {al : BP → Bool} (ps : PS src al) (fr : Frames al) (ot : OT src) (ns : NS src)
     (tr : TrigOK src al) (ob : List Block) (L : Int) (rest : List Block) (hsub : ∀ b ∈ rest, b ∈ ob) (i : Int)
     (hi : 0 ≤ i) (stA stB : List LineStat) {k ls p : Nat} {sA sB : St} (h : DR src al k ls p sA sB)
-    (hop : sA.pc.opened = ob) (hL : L = (ob.length : Int) - 1) :
-    S2 (LLRel src al k ls) (lineLoop 0 ob L rest i stA sA)
+    (hop : sA.pc.opened = ob) (hL : L = (ob.length : Int) - 1) (hcur : FL src → CUR (k : Int) i stA stB)
+    (hi0 : i = 0 → p = ls) (pre : List Block) (hm : Sh.MidA src ob pre rest i sA) :
+    S2 (LLRel src al k ls (loOf i rest)) (lineLoop 0 ob L rest i stA sA)
       (lineLoop 0 (bqBlock :: ob.map shB) (L + 1) (rest.map shB) (i + 1) stB sB) :=
-  lineLoop_sim ps fr ot ns tr ob L rest hsub i hi stA stB h hop hL
+  lineLoop_sim ps fr ot ns tr ob L rest hsub i hi stA stB h hop hL hcur hi0 pre hm
 
 /-- **The driver, `closeBlocks`.** `closeBlocks(from, to)` in A and `closeBlocks(from+1, to+1)` in B. -/
 theorem quote_driver_close_blocks {src : Bytes} {al : BP → Bool} (ps : PS src al) (fr : Frames al) {k ls p : Nat}
@@ -305,10 +309,11 @@ theorem quote_driver_close_blocks {src : Bytes} {al : BP → Bool} (ps : PS src 
     three columns, the code block parser on one indented by more. (The two runs still answer the same and end in
     related states: `quote_driver_open_blocks`.) -/
 theorem nonblank_line_opens_block {src : Bytes} {al : BP → Bool} (ps : PS src al) (fr : Frames al) (ot : OT src) (ns : NS src)
-    (tr : TrigOK src al) (bA bB : Bool) (q : Nat) {k ls p : Nat} {sA sB : St} (h : DRL src al k ls p sA sB)
+    (tr : TrigOK src al) (bA bB : Bool) (hb : FL src → bB = bA) (q : Nat) {k ls p : Nat} {sA sB : St}
+    (h : DRL src al k ls p sA sB)
     (ho : sA.pc.opened = []) (hnb : isBlank ((viewA src ls p).getD []) = false) (a : OpenResult) (sA' : St)
     (hA : openBlocks q bA sA = .ok (a, sA')) : a = .newBlocksOpened := by
-  obtain ⟨_, _, _, _, _, hh⟩ := openBlocks_sim ps fr ot ns tr bA bB q h a sA' hA
+  obtain ⟨_, _, _, _, _, hh⟩ := openBlocks_sim ps fr ot ns tr bA bB hb q h a sA' hA
   exact hh ho hnb
 
 /-- **Whole runs.** For every source without tab and CR that ends with a line feed and has no byte that can start a
@@ -321,8 +326,8 @@ theorem quote_prefix_run {src : Bytes} (hc : C08Class src) :
     ∃ sA sB, GM.Blocks.run src = .ok sA ∧ GM.Blocks.run (quotePrefix src) = .ok sB ∧
       StoreRel src sA.nodes sB.nodes ∧ UStore sA.nodes := by
   obtain ⟨sA, hA⟩ := GM.Props.Blocks.no_panic src
-  obtain ⟨sB, hB, hn, hu⟩ := run_sim hc.wide.wider hA
-  exact ⟨sA, sB, hA, hB, hn, hu⟩
+  obtain ⟨sB, hB, hn, hu, hk⟩ := run_sim hc.wide.wider hA
+  exact ⟨sA, sB, hA, hB, hn, ustore_of_L hu (hk rfl)⟩
 
 /-- **`QuotePrefixSimulation` for the class — UNCONDITIONAL** (`GM.Props.Blocks.QuotePrefixSimulation`, the tree-level
     statement of C08). For every source of `C08Class` (no tab, no CR, ends with a line feed, none of `- * + 0-9`): the
@@ -360,6 +365,50 @@ theorem quote_prefix_simulation_noitems {src : Bytes} (hc : C08ClassL src) :
   obtain ⟨sA, hA⟩ := GM.Props.Blocks.no_panic src
   exact quoteSim_of_class hc hA
 
+/-- **Documents WITH LISTS, without a blank line** (`C08ClassF`: no tab, no CR, not empty, last byte not a space, and
+    no line of the source is blank — `FL`): `QuotePrefixSimulation D`, unconditionally, with ALL TEN block parsers in
+    both runs — bullet and ordered lists, nested lists, lists in block quotes, tight lists, list items interrupted by
+    other blocks, and also `---`, `***`, `a - b`, which the earlier classes excluded. The three list-specific
+    obligations: (1) the `HasBlankPreviousLines` flags that `listParser.Close` reads and the dump prints are equal in
+    both runs on every node but the Document (`NodeRel.blank`): in a source without a blank line every `openBlocks`
+    call gets the same flag — the blank-line statistics of A at level `i` and of B at level `i + 1` answer alike
+    (`GM.Blocks.cur_query`, `lst_next`), the only unshifted calls (children of the Document) answer `false` in both runs
+    after line 0 and `true` in both on line 0; (2) `ListItemContPre` ("the block below an open ListItem is its parent
+    List, whose last item's offset is not negative, and `IndentPosition` is only asked for an indentation that is
+    there") from run A's invariant in the middle of a pass (`Sh.MidA`, the no-panic proof's `StableL`/`ChainedO`/
+    `ListHint`), threaded through `lineLoop_sim`; (3) the driver's unary invariants for the list parsers
+    (`frames_lists`), the List / ListItem kinds in `tree_simL`, and the flags in the dump (`FlagsEq`). -/
+theorem quote_prefix_simulation_lists {src : Bytes} (hc : C08ClassF src) :
+    GM.Props.Blocks.QuotePrefixSimulation src := by
+  obtain ⟨sA, hA⟩ := GM.Props.Blocks.no_panic src
+  exact quoteSim_of_classF hc hA
+
+/-- the same with the provisos spelled out, the empty document included -/
+theorem quote_prefix_simulation_lists_all (src : Bytes) (htf : ∀ c ∈ src, c ≠ 9) (hcr : ∀ c ∈ src, c ≠ 13)
+    (hfl : FL src) (hl : ∀ c, src.getLast? = some c → c ≠ 32) : GM.Props.Blocks.QuotePrefixSimulation src := by
+  by_cases he : src = []
+  · subst he
+    intro e g h
+    have : quoteSimPair [] = none := rfl
+    rw [this] at h
+    cases h
+  · exact quote_prefix_simulation_lists ⟨htf, hcr, he, hl, hfl⟩
+
+/-- whole runs with lists: both block phases end normally, the stores are related (flags included), the original
+    store is well shaped (no empty segment, the Document nobody's child) -/
+theorem quote_prefix_run_lists {src : Bytes} (hc : C08ClassF src) :
+    ∃ sA sB, GM.Blocks.run src = .ok sA ∧ GM.Blocks.run (quotePrefix src) = .ok sB ∧
+      StoreRel src sA.nodes sB.nodes ∧ WellShapedL sA ∧ FlagsEq sA.nodes sB.nodes := by
+  obtain ⟨sA, hA⟩ := GM.Props.Blocks.no_panic src
+  obtain ⟨sB, hB, hn, hu, _⟩ := run_sim_lists hc hA
+  exact ⟨sA, sB, hA, hB, hn, wellShapedL_of hu (segsNE_of_rel hA hn), flagsEq_of_rel hc.noblank hn⟩
+
+/-- **The blank-line flags in whole runs** (the first of the three pieces, as a statement about ANY covered parser
+    set): for a source without a blank line, related final stores have equal `HasBlankPreviousLines` flags on every
+    node but the Document. -/
+theorem quote_flags_equal {src : Bytes} (hfl : FL src) {nA nB : List Node} (hn : StoreRel src nA nB) :
+    FlagsEq nA nB := flagsEq_of_rel hfl hn
+
 /-- the same with the provisos spelled out, the empty document included (for which the statement holds vacuously) -/
 theorem quote_prefix_simulation_nolist (src : Bytes) (htf : ∀ c ∈ src, c ≠ 9) (hcr : ∀ c ∈ src, c ≠ 13)
     (hno : NoItem src) (hl : ∀ c, src.getLast? = some c → c ≠ 32) : GM.Props.Blocks.QuotePrefixSimulation src := by
@@ -377,8 +426,8 @@ theorem quote_prefix_run_nofinalnl {src : Bytes} (hc : C08ClassW src) :
     ∃ sA sB, GM.Blocks.run src = .ok sA ∧ GM.Blocks.run (quotePrefix src) = .ok sB ∧
       StoreRel src sA.nodes sB.nodes ∧ WellShaped sA := by
   obtain ⟨sA, hA⟩ := GM.Props.Blocks.no_panic src
-  obtain ⟨sB, hB, hn, hu⟩ := run_sim hc.wider hA
-  exact ⟨sA, sB, hA, hB, hn, wellShaped_of hu (segsNE_of_rel hA hn)⟩
+  obtain ⟨sB, hB, hn, hu, hk⟩ := run_sim hc.wider hA
+  exact ⟨sA, sB, hA, hB, hn, wellShaped_of (ustore_of_L hu (hk rfl)) (segsNE_of_rel hA hn)⟩
 
 /-- the name of the earlier versions (`partial` now only refers to the class of sources) -/
 theorem quote_prefix_simulation_partial {src : Bytes} (hc : C08Class src) : GM.Props.Blocks.QuotePrefixSimulation src :=
@@ -390,8 +439,8 @@ theorem quote_prefix_simulation_partial {src : Bytes} (hc : C08Class src) : GM.P
     "all lines read"; it is kept as a regression oracle of the model.) -/
 theorem original_run_well_shaped {src : Bytes} (hc : C08Class src) {sA : St} (hA : GM.Blocks.run src = .ok sA) :
     WellShaped sA := by
-  obtain ⟨sB, _, hn, hu⟩ := run_sim hc.wide.wider hA
-  exact wellShaped_of hu (segsNE_of_rel hA hn)
+  obtain ⟨sB, _, hn, hu, hk⟩ := run_sim hc.wide.wider hA
+  exact wellShaped_of (ustore_of_L hu (hk rfl)) (segsNE_of_rel hA hn)
 
 /-- the same, from the executable test `GM.Blocks.quoteHypB` (GM/Spec/QuoteHyp.lean: the class and the facts about
     the original run as one Bool — it still evaluates ALL the former assumptions, a superset of `SegsNE`; the driver
@@ -455,6 +504,18 @@ example : ¬ C08Class (strBytes "a") := by decide +kernel
 example : StoreRel (strBytes "a\n") [{ kind := .document }]
     [{ kind := .document, children := [1] }, { kind := .blockquote, parent := some 0, blankPrev := true }] :=
   storeRel_init _ true
+
+/-- tests: documents with lists are in the class of `quote_prefix_simulation_lists` (non-vacuity), the statement is not
+    vacuous on them (`quoteSim … = "ok"` means `quoteSimPair` is `some` pair of equal dumps), and the thematic breaks /
+    hyphens that the `NoItem` class excluded are admitted -/
+example : C08ClassF (strBytes "- a\n  b\n- c\n  1. d\n  2. e\n> * q\n>   r\n***\n+ x\ny - z\n---\n") := by decide +kernel
+example : GM.Props.Blocks.QuotePrefixSimulation
+    (strBytes "- a\n  b\n- c\n  1. d\n  2. e\n> * q\n>   r\n***\n+ x\ny - z\n---\n") :=
+  quote_prefix_simulation_lists (by decide +kernel)
+example : GM.Blocks.quoteSim (strBytes "- a\n  b\n- c\n  1. d\n  2. e\n> * q\n>   r\n***\n+ x\ny - z\n---\n") = "ok" := by
+  decide +kernel
+example : C08ClassF (strBytes "a - b\n") ∧ C08ClassF (strBytes "---\n") ∧ C08ClassF (strBytes "1. a\n   - b") := by decide +kernel
+example : ¬ C08ClassF (strBytes "- a\n\n- b\n") := by decide +kernel
 
 end blocks
 
